@@ -549,11 +549,11 @@ def gen_idx(tier, rng):
                 for cs in range(1, 7):
                     yield {'k': 'idx', 'h5': 0, 'cs': cs, 'ops': hist, 'extra': []}
     # 2. exhaustive, HDF5-backed (each case creates, closes and reopens a file): up to length 3 (4 thorough)
-    nh = 4 if big else 3
+    nh = 5 if big else 4
     for n in range(0, nh + 1):
         for seq in itertools.product(ALPHA, repeat=n):
             for hist in _idx_histories(seq, with_empty_parts=(n <= 1)):
-                for cs in ((1, 2, 3, 4, 5, 6) if (big or n <= 2) else (1, 2, 3, 5)):
+                for cs in ((1, 2, 3, 4, 5, 6) if n <= (3 if big else 2) else (1, 2, 3, 5) if n < nh else (2, 3)):
                     yield {'k': 'idx', 'h5': 1, 'cs': cs, 'ops': hist, 'extra': []}
     # 3. several write/complete rounds on the same wrapper (the running byte total must carry over)
     for h5 in (0, 1):
@@ -724,7 +724,8 @@ def shrink(case):
 RULE = ('exhaustive small scope. Indexed strings, memory-backed: every sequence of length <= 4 (thorough 5) over '
         "{'', 'a', 'é', 'b€'} (0/1/2/4 bytes), every partition into write_part calls (plus write(), plus empty parts "
         'for length <= 2), every chunksize 1..6, so that every flush threshold is hit exactly and off by one; '
-        'HDF5-backed (a file is created, closed and reopened per case, ~10 ms): the same up to length 3 (thorough 4). '
+        'HDF5-backed (a file is created, closed and reopened per case, ~12 ms): the same up to length 4 (thorough 5) with '
+        'chunk sizes 1..6 for short, {1,2,3,5} / {2,3} for the longest sequences. '
         'Observed per case: stored offsets and bytes, every slice 0<=a<=b<=n through both wrappers, every item, '
         'in-session and after reopen. Plus repeated write/complete rounds, clear, 250 (1500) random longer histories '
         'with chunk sizes around the byte/entry totals. Plain fields: every numeric dtype x extreme/special values x '
